@@ -41,6 +41,7 @@ fn c03() -> PropSpec {
     p.p_corrupt = 350;
     p.p_splice = 60;
     p.p_srv_hostile = 250;
+    p.p_srv_more = 500;
     p.p_srv_lt = 250;
     p.p_srv_integ = 150;
     p.mech_w = [2, 2, 1, 1, 6];
@@ -83,6 +84,22 @@ fn check_c04(l: &Ledger, e: &[(String, String)], _s: &PropSpec) -> Vec<Violation
     for v in oracle_cred::check_c13(l) {
         if v.key.contains("does-not-verify") {
             out.push(Violation { prop: "C04", key: v.key.replace("C13/", "C04/client-built-mac:"), step: v.step, detail: v.detail });
+        }
+    }
+    // misplaced or repeated integrity attributes must not slip through a validating decoder that keeps them
+    if let crate::server::Mech::ShortTerm(_) = l.cfg.mech {
+        let lk = crate::libtap::short_term_key(&l.cfg.password);
+        let rk = l.cfg.pw().into_bytes();
+        for st in &l.steps {
+            if let Call::Recv { bytes, .. } = &st.call {
+                if let Ok(p) = crate::wire::parse(bytes) {
+                    if crate::wire::admitted(&p.types()).iter().any(|a| !*a) {
+                        for (k, d) in crate::oracle_tap::tap_not_ignore_validation(bytes, lk.as_ref(), Some(&rk)) {
+                            out.push(Violation { prop: "C04", key: format!("C04/{}", k), step: st.idx, detail: format!("step {}: {}", st.idx, d) });
+                        }
+                    }
+                }
+            }
         }
     }
     for v in oracle_cred::check_c07(l).into_iter().chain(oracle_cred::check_c08(l)) {
